@@ -34,7 +34,7 @@ func (e *engine) Info() core.Info {
 	return core.Info{
 		Prop:  "C19",
 		Level: "exploration",
-		Rule:  "a case is one seeded history: <=40 AddLink calls on a small lattice (one run in ten: up to 160 links over up to 81 nodes, so that the node R-tree is multi-level) (end points identical, 1-ulp perturbed (must merge) or >=1 apart; interior vertices per run: mixed, mostly bent, all straight, or slight bends with length/chord just above 1; speeds from a small set or continuous in [0.1,100]; no self-loops or parallel links) interleaved with ShortestRoute queries (query points offset <=0.3 from a network node so that the nearest node is unique), both MinimizeOptions, neighbour order chosen by the tape; non-trivial = at least one answered query between distinct connected nodes for which the fewest-links route is NOT a minimum-cost route (so uniform-cost search would be wrong); distinct = distinct hash of the full operation/result log",
+		Rule:  "a case is one seeded history: <=40 AddLink calls on a small lattice (one run in ten: up to 160 links over up to 81 nodes, so that the node R-tree is multi-level) (end points identical, 1-ulp perturbed (must merge) or >=1 apart; one AddLink in 40, at most 3 per run: a link between two NEW end points 1 ulp apart, ten lattice extents away from everything else (two nodes, not a self-loop; must be accepted); interior vertices per run: mixed, mostly bent, all straight, or slight bends with length/chord just above 1; speeds from a small set or continuous in [0.1,100]; no self-loops or parallel links) interleaved with ShortestRoute queries (query points offset <=0.3 from a network node so that the nearest node is unique), both MinimizeOptions, neighbour order chosen by the tape; non-trivial = at least one answered query between distinct connected nodes for which the fewest-links route is NOT a minimum-cost route (so uniform-cost search would be wrong); distinct = distinct hash of the full operation/result log",
 		Real:  []string{"route (NewNetwork, AddLink, newNode/addNode, ShortestRoute, graph adapter, heuristic)", "index/rtree NearestNeighbor/Insert underneath", "op.PointEquals/Length/Distance", "gonum graph/path.AStar"},
 		Stubs: []string{"Go map iteration order in Network.From/Nodes (replaced by a tape-chosen permutation of the id-sorted slice through the verif hook)"},
 		FaultKinds: []string{
